@@ -51,6 +51,14 @@ def classify_crash(deck, run_):
     return None
 
 
+def all_cells_empty(case, deck):
+    import numpy as np
+    reference = M.Reference(deck)
+    pts = np.random.default_rng(case.rng.getrandbits(60)).uniform(
+        -deck.world, deck.world, (6000, 3))
+    return not any(reference.locate(pts))
+
+
 def run(case, ctx):
     from ..core import Outcome
     out = Outcome()
@@ -59,6 +67,12 @@ def run(case, ctx):
     out.structure = gen_cells.structure_of(deck)
     run_ = convert_deck(case, ctx, out, deck)
     if not run_.ok:
+        if run_.exc_type == 'ValueError' and 'max()' in run_.exc_msg and \
+                all_cells_empty(case, deck):
+            # a deck none of whose live cells holds a point has no output to
+            # judge (the converter stops for lack of volumes)
+            out.skipped = 'all-cells-empty'
+            return out
         crash_violation(out, run_, mech=classify_crash(deck, run_))
         return out
     res = region_agreement(case, ctx, out, deck, run_, n_uniform=1500)
